@@ -15,4 +15,5 @@ def run(ctx):
     ctx.proof_phase(extra_targets=['Corr/Check_Deploy.vo'])
     ds.run_cli_stream(ctx, 8 if quick else 150, 4 if quick else 8, props={'C02'})
     ds.run_cli_stream(ctx, 10 if quick else 150, 4, props={'C02'}, stream='moved_roots', script=ds.script_moved_roots, setup=ds.setup_moved_roots)
+    ds.run_cli_stream(ctx, 8 if quick else 120, 4, props={'C02'}, stream='shared_root', script=ds.script_shared_root_filter, setup=ds.setup_shared_root)
     ds.run_lib_stream(ctx, 250 if quick else 4000, props={'C02'})
